@@ -11,6 +11,9 @@ import (
 
 type splitOut struct{ Even, Odd *rlwe.Ciphertext }
 
+// Metas implements MetaHolder.
+func (s *splitOut) Metas() []*rlwe.MetaData { return []*rlwe.MetaData{s.Even.MetaData, s.Odd.MetaData} }
+
 func ringPackingTarget() *Target {
 	type E = *rlwe.RingPackingEvaluator
 	ctAt := func(e *Env, g *Gen, large bool, dl int) *rlwe.Ciphertext {
